@@ -34,7 +34,12 @@ import (
 )
 
 const repoEcs = "/repo/ecs"
-const seams = "/verif/mc/seams"
+var seams = func() string {
+	if r := os.Getenv("VERIF_ROOT"); r != "" {
+		return r + "/mc/seams"
+	}
+	return "/verif/mc/seams"
+}()
 
 type overlay struct {
 	Replace map[string]string
